@@ -1,9 +1,230 @@
-//! STUB component for fadt -- to be written
+//! component 26: FADT (FADTBuilder + finalize).  Case vocabulary documented in coq/theories/Spec/FadtS.v.
 use crate::sx::*;
+use crate::tcommon::*;
 use crate::Emit;
+use acpi_tables::fadt::*;
 
-pub fn run(_case: &Sx, _out: &mut Vec<Ev>) {
-    panic!("harness: component fadt not implemented")
+fn flag(n: u64) -> Flags {
+    match n {
+        0 => Flags::Wbinvd,
+        1 => Flags::WbinvdFlush,
+        2 => Flags::ProcC1,
+        3 => Flags::PLvl2Up,
+        4 => Flags::PwrButton,
+        5 => Flags::SlpButton,
+        6 => Flags::FixRtc,
+        7 => Flags::RtcS4,
+        8 => Flags::TmrValExt,
+        9 => Flags::DckCap,
+        10 => Flags::ResetRegSup,
+        11 => Flags::SealedCase,
+        12 => Flags::Headless,
+        13 => Flags::CpuSwSlp,
+        14 => Flags::PciExpWak,
+        15 => Flags::UsePlatformClock,
+        16 => Flags::S4RtcStsValid,
+        17 => Flags::RemotePowerOnCapable,
+        18 => Flags::ForceApicClusterModel,
+        19 => Flags::ForceApicPhysicalDestinationMode,
+        20 => Flags::HwReducedAcpi,
+        21 => Flags::LowPowerS0IdleCapable,
+        22 => Flags::PersistentCpuCachesNotReported,
+        23 => Flags::PersistentCpuCachesNotPersistent,
+        24 => Flags::PersistentCpuCachesArePersistent,
+        _ => panic!("harness: bad fadt flag"),
+    }
 }
 
-pub fn gen(_tier: &str, _rng: &mut Rng, _emit: &mut Emit) {}
+fn profile(n: u64) -> PmProfile {
+    match n {
+        0 => PmProfile::Unspecified,
+        1 => PmProfile::Desktop,
+        2 => PmProfile::Mobile,
+        3 => PmProfile::Workstation,
+        4 => PmProfile::EnterpriseServer,
+        5 => PmProfile::SohoServer,
+        6 => PmProfile::AppliancePc,
+        7 => PmProfile::PerformanceServer,
+        8 => PmProfile::Tablet,
+        _ => panic!("harness: bad pm profile"),
+    }
+}
+
+pub fn run(case: &Sx, out: &mut Vec<Ev>) {
+    let c = case.list();
+    let ctor = c[0].list();
+    let (oem, tbl, rev) = hdr_args(ctor);
+    let mut b = FADTBuilder::new(oem, tbl, rev);
+    for op in &c[1..] {
+        if let Sx::A(_) = op {
+            // FADTBuilder is Copy: finalize a copy, keep building on the original
+            let copy = b;
+            out.push(image(&copy.finalize()));
+            continue;
+        }
+        let o = op.list();
+        let n = |i: usize| o[i].num();
+        b = match n(0) {
+            1 => b.dsdt_32(n(1) as u32),
+            2 => b.dsdt_64(n(1)),
+            3 => b.firmware_ctrl_32(n(1) as u32),
+            4 => b.firmware_ctrl_64(n(1)),
+            5 => b.acpi_enable(),
+            6 => b.acpi_disable(),
+            7 => b.flag(flag(n(1))),
+            8 => b.gpe_info(n(1) as u32, n(2) as u32, n(3) as u8, n(4) as u8, n(5) as u8),
+            9 => b.preferred_pm_profile(profile(n(1))),
+            _ => panic!("harness: bad fadt op"),
+        };
+        out.push(Ev::Num(0));
+    }
+}
+
+// ---------------------------------------------------------------------------------------------- generators
+
+/// a random builder call other than flag()
+fn rand_other(rng: &mut Rng) -> Sx {
+    match rng.below(8) {
+        0 => l(vec![a(1), a(rng.val(32))]),
+        1 => l(vec![a(2), a(rng.val(64))]),
+        2 => l(vec![a(3), a(rng.val(32))]),
+        3 => l(vec![a(4), a(rng.val(64))]),
+        4 => l(vec![a(5)]),
+        5 => l(vec![a(6)]),
+        6 => l(vec![a(8), a(rng.val(32)), a(rng.val(32)), a(rng.val(8)), a(rng.val(8)), a(rng.val(8))]),
+        _ => l(vec![a(9), a(rng.below(9))]),
+    }
+}
+
+fn flag_op(i: u64) -> Sx {
+    l(vec![a(7), a(i)])
+}
+
+fn rand_ctor(rng: &mut Rng) -> Sx {
+    l(rand_hdr(rng))
+}
+
+/// observations: after every call for short programs, otherwise at a few places and at the end
+fn program(rng: &mut Rng, ctor: Sx, ops: Vec<Sx>) -> Sx {
+    history(rng, ctor, ops)
+}
+
+pub fn gen(tier: &str, rng: &mut Rng, emit: &mut Emit) {
+    // the bare builder
+    for _ in 0..6 {
+        let c = rand_ctor(rng);
+        emit.case(26, program(rng, c, vec![]));
+    }
+    // each builder method alone, several argument sets
+    for _ in 0..12 {
+        for k in 0..8 {
+            let c = rand_ctor(rng);
+            let mut op = rand_other(rng);
+            while op.list()[0].num() != [1, 2, 3, 4, 5, 6, 8, 9][k] {
+                op = rand_other(rng);
+            }
+            emit.case(26, program(rng, c, vec![op]));
+        }
+    }
+    // 25 single flags
+    for i in 0..25u64 {
+        let c = rand_ctor(rng);
+        emit.case(26, program(rng, c, vec![flag_op(i)]));
+    }
+    // all pairs of flags in both orders (and each flag twice)
+    for i in 0..25u64 {
+        for j in 0..25u64 {
+            let c = rand_ctor(rng);
+            emit.case(26, program(rng, c, vec![flag_op(i), flag_op(j)]));
+        }
+    }
+    // all profiles; a later profile replaces an earlier one
+    for p in 0..9u64 {
+        let c = rand_ctor(rng);
+        emit.case(26, program(rng, c, vec![l(vec![a(9), a(p)])]));
+        for q in 0..9u64 {
+            let c = rand_ctor(rng);
+            let f = flag_op(rng.below(25));
+            emit.case(26, program(rng, c, vec![l(vec![a(9), a(p)]), f, l(vec![a(9), a(q)])]));
+        }
+    }
+    // last writer wins: dsdt_32 / dsdt_64, firmware_ctrl_32 / _64, acpi_enable / acpi_disable in every order of two and of three
+    let pairs: [(u64, u64); 3] = [(1, 2), (3, 4), (5, 6)];
+    for (x, y) in pairs {
+        let mk = |rng: &mut Rng, id: u64| -> Sx {
+            match id {
+                1 | 3 => l(vec![a(id), a(rng.val(32))]),
+                2 | 4 => l(vec![a(id), a(rng.val(64))]),
+                _ => l(vec![a(id)]),
+            }
+        };
+        for s in 0..8u64 {
+            for len in 2..=3u64 {
+                let c = rand_ctor(rng);
+                let ops = (0..len).map(|i| mk(rng, if s >> i & 1 == 0 { x } else { y })).collect();
+                emit.case(26, program(rng, c, ops));
+            }
+        }
+        for _ in 0..20 {
+            let c = rand_ctor(rng);
+            let len = rng.range(2, 10);
+            let ops = (0..len)
+                .map(|_| {
+                    if rng.chance(1, 4) {
+                        rand_other(rng)
+                    } else {
+                        let id = if rng.chance(1, 2) { x } else { y };
+                        mk(rng, id)
+                    }
+                })
+                .collect();
+            emit.case(26, program(rng, c, ops));
+        }
+    }
+    // gpe_info twice: all five fields are replaced
+    for _ in 0..20 {
+        let c = rand_ctor(rng);
+        let g = |rng: &mut Rng| l(vec![a(8), a(rng.val(32)), a(rng.val(32)), a(rng.val(8)), a(rng.val(8)), a(rng.val(8))]);
+        let ops = vec![g(rng), rand_other(rng), g(rng)];
+        emit.case(26, program(rng, c, ops));
+    }
+    // random subsets of the flags in random order with repetitions, other builder calls interleaved
+    let n = if tier == "thorough" { 40_000 } else { 4096 };
+    for _ in 0..n {
+        let c = rand_ctor(rng);
+        let mask = rng.next() & ((1 << 25) - 1);
+        let mask = match rng.below(4) {
+            0 => mask & rng.next(),
+            1 => mask | rng.next() & ((1 << 25) - 1),
+            _ => mask,
+        };
+        let mut ops: Vec<Sx> = (0..25u64).filter(|i| mask >> i & 1 == 1).map(flag_op).collect();
+        for i in (1..ops.len()).rev() {
+            let j = rng.below(i as u64 + 1) as usize;
+            ops.swap(i, j);
+        }
+        // repetitions
+        for _ in 0..rng.below(3) {
+            if !ops.is_empty() {
+                let x = rng.pick(&ops).clone();
+                let pos = rng.below(ops.len() as u64 + 1) as usize;
+                ops.insert(pos, x);
+            }
+        }
+        // other builders interleaved
+        for _ in 0..rng.below(6) {
+            let pos = rng.below(ops.len() as u64 + 1) as usize;
+            let o = rand_other(rng);
+            ops.insert(pos, o);
+        }
+        emit.case(26, program(rng, c, ops));
+    }
+    // random programs over all nine methods
+    let n = if tier == "thorough" { 3000 } else { 200 };
+    for _ in 0..n {
+        let c = rand_ctor(rng);
+        let len = rng.range(1, 60);
+        let ops = (0..len).map(|_| if rng.chance(1, 3) { flag_op(rng.below(25)) } else { rand_other(rng) }).collect();
+        emit.case(26, program(rng, c, ops));
+    }
+}
